@@ -346,6 +346,11 @@ def x_run(ctx, case):
     modname = "tvm_c19_mod_%d" % next(_mod_counter)
     mod = types.ModuleType(modname)
     mod.test_suite = lambda: build(tree, cls, runlog)
+    names = ["test_suite"]
+    if case.get("via_load_tests"):
+        # the module's load_tests hook hands the program its suite as is (no wrapping TestSuite on top)
+        mod.load_tests = lambda loader, tests, pattern: build(tree, cls, runlog)
+        names = []
     sys.modules[modname] = mod
     d = tempfile.mkdtemp(prefix="tvm-c19-")
     try:
@@ -360,7 +365,7 @@ def x_run(ctx, case):
                 pass
         out = io.StringIO()
         try:
-            TestProgram(module=mod, argv=["prog", "--list", "test_suite"], stdout=out, exit=False)
+            TestProgram(module=mod, argv=["prog", "--list"] + names, stdout=out, exit=False)
         except SystemExit as e:
             ctx.check(False, "run.list-prints-exactly-the-ids", {"SystemExit": repr(e.code)})
         listed = out.getvalue().split("\n")
@@ -374,7 +379,7 @@ def x_run(ctx, case):
             f.write(sep.join(keep).encode("utf-8") + (sep.encode() if keep and style < 3 else b""))
         del runlog[:]
         out = io.StringIO()
-        TestProgram(module=mod, argv=["prog", "--load-list", path, "test_suite"], stdout=out, exit=False)
+        TestProgram(module=mod, argv=["prog", "--load-list", path] + names, stdout=out, exit=False)
         want = [i for i in L if i in set(keep)]
         ctx.check(runlog == want, "run.load-list-runs-exactly-the-listed",
                   lambda: {"ran": runlog, "want": want, "tree": tree, "keep": keep})
@@ -385,7 +390,7 @@ def x_run(ctx, case):
         del runlog[:]
         out = io.StringIO()
         try:
-            TestProgram(module=mod, argv=["prog", "--list", "--load-list", path, "test_suite"], stdout=out, exit=False)
+            TestProgram(module=mod, argv=["prog", "--list", "--load-list", path] + names, stdout=out, exit=False)
         except SystemExit as e:
             ctx.check(False, "run.list-prints-exactly-the-ids", {"SystemExit": repr(e.code), "with": "--load-list"})
         listed = out.getvalue().split("\n")
@@ -563,7 +568,14 @@ def run(ctx):
         keep = [x for x in dict.fromkeys(L) if rng.random() < 0.5] + (["absent id"] if rng.random() < 0.3 else [])
         rng.shuffle(keep)
         ctx.execute("run", {"tree": tree, "keep": keep, "style": rng.randrange(6),
-                            "after_failed_import": rng.random() < 0.3})
+                            "after_failed_import": rng.random() < 0.3, "via_load_tests": rng.random() < 0.4})
+    for top in KINDS:
+        if top == "fixturesuite":
+            continue
+        for keep in ([], ["b"], ["a", "c"], ["c", "absent"]):
+            for via in (True, False):
+                tree = [top, [["leaf", "a"], ["plain", [["leaf", "b"]]], ["leaf", "c"]]]
+                ctx.execute("run", {"tree": tree, "keep": keep, "style": 0, "via_load_tests": via})
     for i in range(ctx.scale(3, 32)):
         ids = fresh_ids(rng)
         tree = ["plain", [["leaf", next(ids)], ["custom", [["leaf", next(ids)], ["leaf", next(ids)]]],
